@@ -109,6 +109,100 @@ def safe_repr(x):
         return "<repr raised %s>" % type(exc).__name__
 
 
+# ---------------------------------------------------------------------------- mixed value lists
+# (seeded round 5) A list of values that has to be refused need not be refused because of its FIRST
+# item: every list-taking operation (values setter, extend, the constructors, the dtype setter,
+# Property.merge / merge_check, and through them Section.merge, the link setter and finalize) meets
+# lists with a prefix that converts, ONE item that does not, and a suffix that converts again.
+VALUE_TEXTS = ["7", "8", "-3", "1.5", "2.5", "eight", "1.5x", "true", "False", "maybe", "2020-01-02",
+               "2021-12-31", "2020-01-02x", "2020-13-45", "2020-01-02 03:04:05", "03:04:05", "25:61:61",
+               "(1;2)", "(3;4)", "(1;x)", "(1;2;3)", "x", "inf", "1e999", "nan", "0x10", "1_0", " 9 ",
+               "7\n", "http://x", u"\u0663"]
+VALUE_FLOATS = [2.0, 3.0, -1.0, 0.5, float("inf"), float("-inf"), float("nan"), 1e308]
+
+# destinations: (dtype, values)
+DEST_STATES = [("int", [1, 2]), ("int", [5]), ("int", [1, 2]), ("float", [1.5]), ("boolean", [True]),
+               ("date", ["2020-01-02"]), ("datetime", ["2020-01-02 03:04:05"]), ("time", ["03:04:05"]),
+               ("2-tuple", ["(1;2)"]), ("int", None), ("float", None), ("date", None), ("boolean", []),
+               ("3-tuple", None), ("int", [7])]
+
+
+def mixed_values(r, dtype, floats=False):
+    """(values, index of the item that does not convert) for a destination of the given dtype, or
+    None. Which candidate converts is asked of the library's own converter (odml.dtypes.get), item by
+    item, so the list is right whatever the converters accept."""
+    from odml import dtypes
+    good, bad = [], []
+    for v in (VALUE_FLOATS if floats else VALUE_TEXTS):
+        try:
+            dtypes.get(v, dtype)
+            good.append(v)
+        except Exception:
+            bad.append(v)
+    if not good or not bad:
+        return None
+    npre = r.choice([0, 1, 1, 1, 1, 2, 3, 6])
+    nsuf = r.choice([0, 0, 1, 2])
+    return ([r.choice(good) for _ in range(npre)] + [r.choice(bad)] + [r.choice(good) for _ in range(nsuf)],
+            npre)
+
+
+def source_extras(r):
+    """Attributes a merge takes over when the destination has none of its own (what a half-done merge
+    leaves behind)."""
+    return {"unit": r.choice([None, "Hz", "mV"]), "definition": r.choice([None, "source definition"]),
+            "reference": r.choice([None, "source reference"]),
+            "value_origin": r.choice([None, "source.csv"]), "uncertainty": r.choice([None, None, 0.5])}
+
+
+def value_position(r, odml, doc, a, c, free, roots, stage, box):
+    """One list-taking operation of a Property meets a list whose k-th item does not convert."""
+    n = r.randrange(10 ** 6)
+    dt, vals = r.choice(DEST_STATES)
+    floats = r.random() < 0.15
+    mixed = mixed_values(r, dt, floats) or mixed_values(r, dt)
+    values, k = mixed
+    via = r.choice(["values", "values", "values_text", "extend_strict", "extend_loose", "extend_prop",
+                    "merge_loose", "merge_loose", "merge_loose", "merge_strict", "ctor", "create", "dtype",
+                    "append_list", "insert_list", "value_kw"])
+    q = odml.Property("q%d" % n, values=vals, dtype=dt, parent=r.choice([a, c, free]),
+                      definition=r.choice([None, None, "own definition"]))
+    src = None
+    if via in ("extend_prop", "merge_loose", "merge_strict", "dtype"):
+        extras = source_extras(r)
+        if via == "extend_prop":
+            extras["unit"] = q.unit
+        spar = r.choice([None, None, free, a])
+        src = odml.Property("s%d" % n if spar is q.parent else r.choice(["q%d" % n, "s%d" % n]),
+                            values=values, parent=spar, **extras)
+        if src.parent is None:
+            roots.append(src)
+    box["before"] = deep_snapshot(doc, roots)
+    stage[0] = "value_position:%s:%s:%d" % (via, dt, k)
+    if via == "values":
+        q.values = r.choice([values, tuple(values), iter(values)])
+    elif via == "values_text":
+        q.values = "[" + ", ".join(str(v) for v in values) + "]"
+    elif via in ("extend_strict", "extend_loose"):
+        q.extend(r.choice([values, tuple(values)]), strict=via == "extend_strict")
+    elif via == "extend_prop":
+        q.extend(src)
+    elif via in ("merge_loose", "merge_strict"):
+        q.merge(src, strict=via == "merge_strict")
+    elif via == "ctor":
+        odml.Property("new%d" % n, values=values, dtype=dt, parent=r.choice([a, c, free]), unit="mV")
+    elif via == "value_kw":
+        odml.Property("new%d" % n, value=values, dtype=dt, parent=r.choice([a, c, free]))
+    elif via == "create":
+        r.choice([a, c, free]).create_property("new%d" % n, values=values, dtype=dt)
+    elif via == "dtype":
+        src.dtype = dt
+    elif via == "append_list":
+        q.append(values, strict=r.random() < 0.5)
+    else:
+        q.insert(r.randrange(0, 3), values, strict=r.random() < 0.5)
+
+
 PROVOKE = ["values_unconvertible", "dtype_unconvertible", "append_unconvertible", "extend_unconvertible",
            "insert_unconvertible", "setitem_unconvertible", "val_cardinality", "sec_cardinality",
            "prop_cardinality", "new_id", "doc_date", "link_unresolvable", "ctor_values", "ctor_card_prop",
@@ -117,7 +211,7 @@ PROVOKE = ["values_unconvertible", "dtype_unconvertible", "append_unconvertible"
            "relink_unresolvable", "extend_later_refused", "include_unresolvable", "link_self_or_relative",
            "reorder_bad_index", "insert_bad_index", "setitem_bad_key", "merge_refused", "remove_foreign",
            "values_out_of_range", "dtype_matrix", "values_matrix", "ctor_matrix", "link_merge_conflict",
-           "merge_clash_matrix"]
+           "merge_clash_matrix", "value_position_matrix", "ctor_later_argument"]
 
 
 def merge_clash(r, odml, doc, a, b, roots, stage, box):
@@ -131,8 +225,9 @@ def merge_clash(r, odml, doc, a, b, roots, stage, box):
     own, and whether they live in the document or are detached. box["before"]: the snapshot taken
     just before the call that should be refused."""
     n = r.randrange(10 ** 6)
-    via = r.choice(["merge_strict", "merge_loose", "merge_loose", "link_abs", "link_rel", "finalize"])
-    in_doc = via not in ("merge_strict", "merge_loose")
+    via = r.choice(["merge_strict", "merge_loose", "merge_loose", "link_abs", "link_rel", "finalize",
+                    "prop_merge_loose", "prop_merge_strict"])
+    in_doc = via in ("link_abs", "link_rel", "finalize")
     dst = odml.Section("dst%d" % n, "t", parent=r.choice([doc, b] if in_doc else [doc, b, None, None]),
                        definition=r.choice([None, None, "own definition"]),
                        reference=r.choice([None, None, "own reference"]))
@@ -174,17 +269,27 @@ def merge_clash(r, odml, doc, a, b, roots, stage, box):
         pd = odml.Section("deep", "t", parent=dst)
         for i in range(r.randrange(0, 2)):
             fine(ps, pd, 10 + i)
-    strict = via == "merge_strict"
-    clash = r.choice(["sec_type", "sec_type", "sec_type", "prop_value", "prop_value"] +
+    strict = via in ("merge_strict", "prop_merge_strict")
+    clash = r.choice((["sec_type", "sec_type", "sec_type"] if not via.startswith("prop_") else []) +
+                     ["prop_value", "prop_value", "prop_value"] +
                      (["prop_unit", "prop_dtype", "prop_definition"] if strict else []))
     if clash == "sec_type":
         t1, t2 = r.choice([("t", "u"), ("hardware/channel", "todo"), ("u", "t")])
         fill(odml.Section("clash", t1, parent=ps), r.choice(["none", "prop", "sec", "both"]))
         fill(odml.Section("clash", t2, parent=pd), r.choice(["none", "none", "none", "prop", "sec", "both"]))
-    elif clash == "prop_value":
+    elif clash == "prop_value" and r.random() < 0.3:
         odml.Property("clash", values=r.choice([["not a number"], ["2020-01-02x"], ["1.5x", "2"]]), parent=ps)
         odml.Property("clash", values=r.choice([[1, 2], [1.5], [True]]), parent=pd,
                       definition=r.choice([None, "d"]))
+    elif clash == "prop_value":
+        # (round 5) the item that does not convert sits anywhere in the source's values: behind items
+        # that do convert (a check that looks at the first item only lets the merge start), in front
+        # of others; the source carries attributes the destination would take over
+        dt, dvals = r.choice(DEST_STATES)
+        floats = r.random() < 0.15
+        values, _k = mixed_values(r, dt, floats) or mixed_values(r, dt)
+        odml.Property("clash", values=values, parent=ps, **source_extras(r))
+        odml.Property("clash", values=dvals, dtype=dt, parent=pd, definition=r.choice([None, "d"]))
     elif clash == "prop_unit":
         odml.Property("clash", values=[3], unit="kV", parent=ps)
         odml.Property("clash", values=r.choice([[1], None]), dtype="int", unit="mV", parent=pd)
@@ -213,6 +318,8 @@ def merge_clash(r, odml, doc, a, b, roots, stage, box):
     stage[0] = "clash:%s:%s" % (via, clash)
     if via in ("merge_strict", "merge_loose"):
         dst.merge(src, strict=strict)
+    elif via.startswith("prop_"):
+        pd.properties["clash"].merge(ps.properties["clash"], strict=strict)
     elif via == "link_abs":
         dst.link = src.get_path()
     elif via == "link_rel":
@@ -227,7 +334,12 @@ class C06(HeapCheck):
     lean_targets = ["OdmlModel.Props.C06"]
     obligations = ["C06." + t for t in [
         "refused_changes_nothing", "refused_changes_nothing_anywhere", "constructor_refused_adds_nothing",
-        "extend_all_or_nothing", "cardinality_refused_keeps"]]
+        "extend_all_or_nothing", "cardinality_refused_keeps",
+        # compound operations of the HeapExt model (merge, link setter, clone): refused => unchanged, all-or-nothing
+        "merge_refused_up_front_changes_nothing", "link_unresolvable_changes_nothing", "link_unresolvable_raises",
+        "link_refused_up_front_changes_nothing", "merge_all_or_nothing", "merge_raises_iff",
+        "clone_refused_changes_nothing", "link_all_or_nothing", "merge_all_or_nothing_anywhere",
+        "refused_compound_changes_nothing"]]
     quick_n = 1200
     thorough_n = 30000
     trusted_base = [
@@ -246,7 +358,10 @@ class C06(HeapCheck):
             "arguments with parent=; since seeded round 3 also deep-equal copies / twins, odd names and "
             "positions, see C03), oracle-only histories with clone / merge / link / clean (refused primitive "
             "operations compared, incl. what .document answers before and after), plus a provoke stream: "
-            "39 kinds (since round 4 a matrix of refused merges / link assignments / finalize: kind of clash x "
+            "41 kinds (since round 5 `value_position_matrix`: every list-taking Property operation incl. "
+            "Property.merge meets a list whose k-th item does not convert, and `ctor_later_argument`; the "
+            "unconvertible value of a refused merge / link / finalize sits anywhere in the source's values; "
+            "since round 4 a matrix of refused merges / link assignments / finalize: kind of clash x "
             "empty or filled clashing objects x position x strictness) of refused value / dtype / "
             "cardinality / id / date / link / constructor calls on a populated document, among them three "
             "matrix kinds (any Property pre-state x any dtype / any hostile value incl. values whose "
@@ -334,7 +449,8 @@ class C06(HeapCheck):
                 elif k == "link_unresolvable":
                     a.link = r.choice(["/no/such", "nope", "/b/zzz"])
                 elif k == "ctor_values":
-                    odml.Property("new", values=["oops"], dtype="int", parent=a)
+                    odml.Property("new", values=r.choice([["oops"], [1, "oops"], ["1", "2", "oops", "3"],
+                                                          "[1, 2, oops]"]), dtype="int", parent=a)
                 elif k == "ctor_card_prop":
                     odml.Property("new", values=[1], parent=a, val_cardinality=(3, 1))
                 elif k == "ctor_card_sec":
@@ -387,7 +503,10 @@ class C06(HeapCheck):
                     # the path resolves, but merging the target is refused: it has a Property of the
                     # same name whose values do not convert (a: n = [1, 2, 3] int)
                     tgt = odml.Section("tgt%d" % r.randrange(10 ** 6), "t", parent=r.choice([doc, b]))
-                    odml.Property("n", values=[r.choice(["x", "2020-01-02", "1.5x"])], parent=tgt)
+                    odml.Property("n", values=r.choice([[], ["7"], ["7", "8"]]) +
+                                  [r.choice(["x", "2020-01-02", "1.5x"])] + r.choice([[], ["9"]]),
+                                  parent=tgt, unit=r.choice([None, "mV", "Hz"]),
+                                  reference=r.choice([None, "r"]))
                     if r.random() < 0.5:
                         odml.Section("sub", "t", parent=tgt)
                     before = deep_snapshot(doc, [free])
@@ -435,7 +554,9 @@ class C06(HeapCheck):
                     if not any(pp.name == "q" for pp in c.properties):
                         odml.Property("q", values=[1, 2], dtype="int", unit="mV", definition="one", parent=c)
                     if how == "value":
-                        odml.Property("q", values=["not a number"], dtype="string", parent=sc)
+                        odml.Property("q", values=r.choice([[], ["7"], ["7", "8"]]) + ["not a number"] +
+                                      r.choice([[], ["9"]]), dtype="string", parent=sc,
+                                      reference=r.choice([None, "r"]))
                     elif how == "unit":
                         odml.Property("q", values=[3], dtype="int", unit="kV", parent=sc)
                     elif how == "dtype":
@@ -489,6 +610,28 @@ class C06(HeapCheck):
                                   lambda: q.__setitem__(r.randrange(-1, 2), h)])()
                 elif k == "merge_clash_matrix":
                     merge_clash(r, odml, doc, a, b, roots, stage, box)
+                elif k == "value_position_matrix":
+                    value_position(r, odml, doc, a, c, free, roots, stage, box)
+                elif k == "ctor_later_argument":
+                    # several arguments are given and a LATER one is refused (the earlier ones are fine):
+                    # the second cardinality of a Section, the cardinality of a Property whose values
+                    # are fine, values behind a valid dtype, create_* with values that do not convert
+                    par = r.choice([a, b, c, doc])
+                    n = r.randrange(10 ** 6)
+                    badc = r.choice([(3, 1), "x", -2, (1, 2, 3)])
+                    calls = [lambda: odml.Section("new%d" % n, "t", parent=par, sec_cardinality=(0, 2),
+                                                  prop_cardinality=badc),
+                             lambda: odml.Section("new%d" % n, "t", parent=par, prop_cardinality=badc),
+                             lambda: odml.Section("new%d" % n, "t", parent=par, definition="d",
+                                                  sec_cardinality=badc, prop_cardinality=(0, 1))]
+                    if par is not doc:
+                        calls += [lambda: odml.Property("new%d" % n, values=[1, 2], dtype="int", unit="mV",
+                                                        parent=par, val_cardinality=badc),
+                                  lambda: odml.Property("new%d" % n, values=["7", "eight"], dtype="int",
+                                                        parent=par, val_cardinality=(0, 5)),
+                                  lambda: par.create_property("new%d" % n, values=["7", "eight"], dtype="int"),
+                                  lambda: par.create_property("new%d" % n, values=[1.5, "x"])]
+                    r.choice(calls)()
                 elif k == "ctor_matrix":
                     dt = r.choice(DTYPES + [None, None])
                     h = hostile_value(r)
@@ -555,8 +698,11 @@ class C06(HeapCheck):
         prev = []
         prev_q = {}
         for k, step in enumerate(obs["trace"]):
-            # (refused merges belong to C13, refused link assignments to C12 and the provoke stream)
-            if step["out"] != "ok" and obs["done"][k]["op"] not in ("merge", "set_link", "clean"):
+            # (refused link assignments belong to C12 and the provoke stream: the setter takes the old
+            # link apart first and resolves it again after a refusal, which gives equal copies under
+            # new handles. Since round 5 a refused Section.merge is compared here as well - the tree
+            # structure: child lists, parents, names, ids, merge records; the attributes are C13's.)
+            if step["out"] != "ok" and obs["done"][k]["op"] not in ("set_link", "clean"):
                 if step["snap"] != prev:
                     diff = [i for i, (x, y) in enumerate(zip(step["snap"], prev)) if x != y]
                     extra = len(step["snap"]) - len(prev)
